@@ -190,6 +190,19 @@ func init() {
 				if c.Rng.Intn(4) == 0 {
 					challenge = randBytesNoCR(c, 1+c.Rng.Intn(12), "alnum")
 				}
+				if i%7 == 3 {
+					// "all challenge strings": punctuation that means something elsewhere in the handshake - a final
+					// '>' (the prompt's mark), brackets (SID), ';' and '|'
+					const punct = "0123456789ABCxyz<>[];|$-:"
+					b := make([]byte, 1+c.Rng.Intn(10))
+					for k := range b {
+						b[k] = punct[c.Rng.Intn(len(punct))]
+					}
+					if c.Rng.Intn(2) == 0 {
+						b[len(b)-1] = '>'
+					}
+					challenge = string(b)
+				}
 			}
 			main := hskAux{Addr: strings.ToUpper(mycall), Pw: randBytesNoCR(c, c.Rng.Intn(14), "alnum"), Err: c.Rng.Intn(8) == 0}
 			var aux []hskAux
